@@ -576,7 +576,8 @@ namespace fixedmath
   [[ nodiscard, gnu::const, gnu::always_inline ]]
   constexpr fixed_t ceil( fixed_t value ) noexcept
     {
-    fixed_internal result { (value.v + 0xffff) & ~((1<<16ll)-1) };
+    //unsigned addition, for arguments above max() - 0xffff the sum wraps and the test below rejects it
+    fixed_internal result { static_cast<fixed_internal>(static_cast<fixed_internal_unsigned>(value.v) + 0xffffu) & ~((1<<16ll)-1) };
     if( value.v <= result ) 
       return as_fixed(result);
     return quiet_NaN_result();
